@@ -35,6 +35,7 @@ func init() {
 			{ID: "C09.R6", Floor: 2, Run: c09r6, Text: "the lock-bit pool's array length and the constant in its exhaustion guard (panic edge dominating the array write) both equal MaskTotalBits of the build"},
 			{ID: "C09.R13", Floor: 1, Run: internalQueriesExhausted, Text: "queries opened inside the library are run to the end: a local Query is exhausted (Next() == false) or closed on every path to a return"},
 			{ID: "C09.R14", Floor: 5, Run: lookupBeforeLock, Text: "the registered-filter lookup comes before the lock: no call that reaches the stale-handle panic of the filter cache is made while a function holds a lock bit it has just taken (a recovered panic would leave the world locked with no query open)"},
+			{ID: "C09.R15", Floor: 12, Run: c11r2, Text: "the removal event is delivered inside a lock window (= C11.R2), whatever the listener subscribes to"},
 		},
 	})
 }
